@@ -259,8 +259,17 @@ func c09Variants(x ap.Item, f vocab.Field) (out []c09Variant) {
 		}
 	}
 	fv0 := reflect.ValueOf(x).Elem().Field(f.Index)
-	if fv0.IsZero() {
-		return nil
+	if fv0.IsZero() || (fv0.Kind() == reflect.Slice && fv0.Len() == 0) {
+		return nil // unset, or set to nothing: the clause is about changing what a property says
+	}
+	if n, ok := fv0.Interface().(ap.NaturalLanguageValues); ok {
+		says := false
+		for _, e := range n {
+			says = says || len(e.Value) > 0
+		}
+		if !says {
+			return nil
+		}
 	}
 	switch f.Kind {
 	case vocab.KNLV:
